@@ -73,6 +73,10 @@ where
     R: Rng + ?Sized,
 {
     assert!(!bound.is_zero());
+    #[cfg(feature = "verif-hooks")]
+    if let Some(outcome) = super::distributions::verif_hooks::intercept_uniform_below(bound) {
+        return outcome;
+    }
     let bits = bound.bits();
     loop {
         let n = random_biguint(rng, bits);
